@@ -344,6 +344,7 @@ type outcome struct {
 	end      int
 	admitted bool
 	sleep    int64
+	b0, e0   int // logical instants of call and return (order of these events over all callers)
 }
 
 func coopEngine() {
@@ -393,7 +394,7 @@ func coopEngine() {
 			// sequential warm-up pass (outside the scheduler)
 			e, b := sentinel.Entry(res, sentinel.WithSlotChain(chain))
 			if b == nil {
-				all = append(all, outcome{w: -1, batch: 1, arrive: int64(clk.Ns()), admitted: true})
+				all = append(all, outcome{w: -1, batch: 1, arrive: int64(clk.Ns()), admitted: true, b0: -2, e0: -1})
 				e.Exit()
 			}
 			clk.AddNs(uint64(c.LastAgo))
@@ -401,6 +402,7 @@ func coopEngine() {
 		for k := range sleeps {
 			delete(sleeps, k)
 		}
+		evSeq := 0
 		nw := len(c.Workers)
 		fns := make([]func(), 0, nw+1)
 		for w := range c.Workers {
@@ -408,10 +410,13 @@ func coopEngine() {
 			fns = append(fns, func() {
 				for _, cl := range c.Workers[w] {
 					coop.Yield("before-call")
-					o := outcome{w: w, batch: cl.Batch, arrive: int64(clk.Ns()), beg: len(vals)}
+					o := outcome{w: w, batch: cl.Batch, arrive: int64(clk.Ns()), beg: len(vals), b0: evSeq}
+					evSeq++
 					sleeps[w] = 0
 					e, b := sentinel.Entry(res, sentinel.WithSlotChain(chain), sentinel.WithBatchCount(cl.Batch))
 					o.end = len(vals)
+					o.e0 = evSeq
+					evSeq++
 					o.admitted = b == nil
 					o.sleep = sleeps[w]
 					all = append(all, o)
@@ -481,6 +486,25 @@ func coopEngine() {
 				if v+cost-o.arrive > maxQ {
 					just = true
 				}
+			}
+			if !just && len(vals) <= 1 {
+				// the implementation's pass timestamp is not visible (it is no longer accessed through atomics): judge
+				// by outcomes. The latest pass time the caller can have met is the latest one granted by a call that
+				// began before this one returned; callers rejected concurrently may have held a reservation meanwhile.
+				base, transient := vals[0], int64(0)
+				for _, o2 := range all {
+					if o2.w == o.w && o2.b0 == o.b0 {
+						continue
+					}
+					if o2.b0 < o.e0 && o2.admitted && o2.arrive+o2.sleep > base {
+						base = o2.arrive + o2.sleep
+					}
+					if o2.b0 < o.e0 && o2.e0 > o.b0 && !o2.admitted {
+						transient += c.Rule.cost(o2.batch)
+					}
+				}
+				just = base+transient+cost-o.arrive > maxQ
+				run.Count("rejections_judged_by_outcomes", 1)
 			}
 			if !just {
 				bad("unjustified-rejection", fmt.Sprintf("caller %d (batch %d, arrival %d) rejected although no value of the pass timestamp during its call (%v) exceeds the queueing limit %d with cost %d", o.w, o.batch, o.arrive, vals[lo:o.end], maxQ, cost))
